@@ -171,8 +171,31 @@ def rollup_accumulator_rule(ctx: Ctx, rid: str, which=("upd", "sc")):
                "roll-up does not iterate the container's children", key=f"{rid}|{fn.qual}|children")
 
 
+def exact_span_rule(ctx: Ctx, rid: str):
+    """A container's dates ARE child dates: what both roll-ups write into a container's start / end derives from the children's
+    dates by comparison and selection only -- it does not pass through the slot grid (dateToIdx / idxToDate) or a rounding call,
+    which would move a mid-slot child date to a slot boundary."""
+    repo = ctx.repo
+    n = 0
+    for q in ("Project._updateContainerTaskStatus", "TaskScenario.scheduleContainer"):
+        fn = repo.func(q)
+        for pid in ("start", "end"):
+            for atoms, node, scx, tgt in pattr_writes(ctx, fn, pid):
+                d = data(atoms)
+                bad = sorted(a[5:] for a in d if a in ("call:dateToIdx", "call:idxToDate", "call:round", "call:floor", "call:ceil", "call:align", "call:replace"))
+                n += 1
+                ctx.ob(rid, f"{fn.qual}: {norm(node.ast)[:60]}", (fn, node.ast), not bad,
+                       "the written date is one of the children's dates" if not bad else
+                       f"the written date passes through {', '.join(bad)}(): a child that starts or ends inside a slot gives the container a date on "
+                       "the slot grid, earlier than its earliest child start / latest child end",
+                       key=key_of(rid, fn, None, f"exact {pid}"))
+    if n < 4:
+        raise AnchorMissing(f"roll-up writes of container dates: {n} found")
+
+
 def run_extra(ctx: Ctx):
     all_children_rule(ctx, "R10.10")
+    exact_span_rule(ctx, "R10.11")
     # ---------------------------------------------------------------- R10.9 answers never come from state that outlives the question
     from .common import process_state_rule
     process_state_rule(ctx, "R10.9", [ctx.repo.func("Project.schedule")],
